@@ -63,7 +63,7 @@ def build(flavours, root=None, be=False):
     os.makedirs(d, exist_ok=True)
     rc, err = batch.translate(module(), d, w2c2=mclib.w2c2_binary())
     if rc != 0:
-        raise mclib.MachineryError('w2c2 failed on the C16 E2 module: ' + err)
+        raise mclib.PipelineFailure('w2c2 failed on the C16 E2 module', err)
     with open(os.path.join(d, 'ops.inc'), 'w') as f:
         f.write(ops_inc())
     defs = ['-include', os.path.join(mclib.MC, 'atomic_points.h')] + (['-DWASM_ENDIAN=WASM_BIG_ENDIAN'] if be else [])
